@@ -10,12 +10,16 @@ from .signals_common import _mesa, err_of
 
 
 def parse_tree(toks):
-    """tokens -> (tree, rest); tree = ('ret', v) | ('read', o, n, [t…]) | ('readc', c, [t…]) | ('write', o, n, v, t)"""
+    """tokens -> (tree, rest); tree = ('ret', v) | ('read', o, n, [t…]) | ('readc', c, [t…]) | ('write', o, n, v, t) |
+    ('fail',) = the function raises ZeroDivisionError"""
     assert toks[0] == "(", toks
     k = toks[1]
+    if k == "fail":
+        assert toks[2] == ")"
+        return ("fail",), toks[3:]
     if k == "ret":
         assert toks[3] == ")"
-        return ("ret", int(toks[2])), toks[4:]
+        return ("ret", p_val(toks[2])), toks[4:]
     if k in ("read", "readc"):
         head = (int(toks[2]), int(toks[3])) if k == "read" else (int(toks[2]),)
         rest = toks[4:] if k == "read" else toks[3:]
@@ -28,18 +32,29 @@ def parse_tree(toks):
     if k == "write":
         t, rest = parse_tree(toks[5:])
         assert rest[0] == ")"
-        return ("write", int(toks[2]), int(toks[3]), int(toks[4]), t), rest[1:]
+        return ("write", int(toks[2]), int(toks[3]), p_val(toks[4]), t), rest[1:]
     raise ValueError(toks)
 
 
+def p_val(s):
+    """a value on a protocol line: an int or N (= None)"""
+    return None if s == "N" else int(s)
+
+
+def f_val(v):
+    return "N" if v is None else str(v)
+
+
 def fmt_tree(t):
+    if t[0] == "fail":
+        return "( fail )"
     if t[0] == "ret":
-        return f"( ret {t[1]} )"
+        return f"( ret {f_val(t[1])} )"
     if t[0] == "read":
         return f"( read {t[1]} {t[2]} " + " ".join(fmt_tree(b) for b in t[3]) + " )"
     if t[0] == "readc":
         return f"( readc {t[1]} " + " ".join(fmt_tree(b) for b in t[2]) + " )"
-    return f"( write {t[1]} {t[2]} {t[3]} {fmt_tree(t[4])} )"
+    return f"( write {t[1]} {t[2]} {f_val(t[3])} {fmt_tree(t[4])} )"
 
 
 def pick(bs, v):
@@ -47,7 +62,7 @@ def pick(bs, v):
 
 
 def has_write(t):
-    if t[0] == "ret":
+    if t[0] in ("ret", "fail"):
         return False
     if t[0] == "write":
         return True
@@ -116,6 +131,8 @@ class CompImpl:
                     if t[0] == "ret":
                         self.trace.append(("eval-end", c, t[1]))
                         return t[1]
+                    if t[0] == "fail":
+                        raise ZeroDivisionError("the function raises")
                     if t[0] == "read":
                         v = getattr(self.inst[t[1]], f"a{t[2]}")
                         self.trace.append(("eval-read", c, f"{t[1]}.{t[2]}", v))
@@ -168,7 +185,7 @@ class CompImpl:
                 raise AttributeError(f"computable {c}")
             oo, n, _ = self.comps[c]
             v = getattr(self.inst[oo], f"a{n}")
-            self.trace.append(("hread", hid, c, v))
+            self.trace.append(("hread", hid, c, v, self.store()))
 
     # operations ------------------------------------------------------------------------------------
     def fmt(self, head):
@@ -198,7 +215,7 @@ class CompImpl:
                 v = self.inst[o].__dict__[f"_a{n}"]._value
                 head = f"ok {v}"
             elif k == "assign":
-                o, n, v = int(w[1]), int(w[2]), int(w[3])
+                o, n, v = int(w[1]), int(w[2]), p_val(w[3])
                 assert self.kind[(o, n)] == "obs"
                 setattr(self.inst[o], f"a{n}", v)
                 head = "ok 0"
@@ -221,7 +238,7 @@ class CompImpl:
                 head = "ok 0"
             else:
                 raise AssertionError(w)
-        except (ValueError, KeyError, IndexError, AttributeError) as e:
+        except (ValueError, KeyError, IndexError, AttributeError, ZeroDivisionError) as e:
             head = err_of(e)
         except RecursionError:
             # unbounded mutual recursion (the model runs out of fuel): the scenario is over
@@ -248,21 +265,67 @@ def run_comp(sc):
 # values assigned to Observables: small ints (which CPython interns) and large ones (equal values are then
 # distinct objects, so an identity comparison instead of an equality comparison would show)
 def gen_val(R):
-    return R.choice([0, 1, 2, 0, 1, 2, 0, 1, 2, 1000, 1001])
+    return R.choice([0, 1, 2, 0, 1, 2, 0, 1, 2, 1000, 1001, "N"])
 
 
-def gen_tree(R, depth, obs_keys, lower, allow_write, root=False):
+def gen_ret(R):
+    """what a function returns: a small int or None (a Computable's own dirty signal carries None as new value)"""
+    return None if R.random() < 0.12 else R.randrange(0, 4)
+
+
+def gen_tree(R, depth, obs_keys, lower, allow_write, root=False, p_fail=0.0):
     k = R.random()
     if depth == 0 or (not root and k < 0.22):
-        return ("ret", R.randrange(0, 4))
+        if p_fail and R.random() < p_fail:
+            return ("fail",)            # the function raises along this branch
+        return ("ret", gen_ret(R))
     nb = R.choice([2, 2, 3, 3, 1])
     if allow_write and k > 0.85:
         o, n = R.choice(obs_keys)
-        return ("write", o, n, R.randrange(0, 3), gen_tree(R, depth - 1, obs_keys, lower, allow_write))
+        return ("write", o, n, R.randrange(0, 3), gen_tree(R, depth - 1, obs_keys, lower, allow_write, p_fail=p_fail))
     if lower and k > 0.55:
-        return ("readc", R.choice(lower), [gen_tree(R, depth - 1, obs_keys, lower, allow_write) for _ in range(nb)])
+        return ("readc", R.choice(lower), [gen_tree(R, depth - 1, obs_keys, lower, allow_write, p_fail=p_fail) for _ in range(nb)])
     o, n = R.choice(obs_keys)
-    return ("read", o, n, [gen_tree(R, depth - 1, obs_keys, lower, allow_write) for _ in range(nb)])
+    return ("read", o, n, [gen_tree(R, depth - 1, obs_keys, lower, allow_write, p_fail=p_fail) for _ in range(nb)])
+
+
+def gen_raise_scenario(R):
+    """directed: functions that raise on their own.
+    * a Computable whose function raised must run it again at the next read — not re-validate what it read before the
+      failure and serve the value cached earlier (finding G11) —, also when unrelated Observables were assigned in
+      between, through a chain, and after the input is repaired;
+    * the dirty pre-check looks at the remembered values owner by owner, i.e. not in the order the function read them: a
+      remembered Computable that raises now, but that the function would not read any more because an Observable read
+      EARLIER (on another owner) changed, must not make the read fail (finding G12)."""
+    bad, good, other = R.choice([0, 1, 2]), None, None
+    good, other = R.sample([v for v in (0, 1, 2, 1000) if v != bad], 2)
+    div = ("read", 0, 1, [("fail",) if i == bad else ("ret", R.randrange(0, 4)) for i in range(3)] + [("ret", 3)])
+    kind = R.choice(["again", "again", "chain", "order", "order"])
+    if kind in ("again", "chain"):
+        lines = ["scenario comp 0.0.obs,0.1.obs,0.2.comp,0.3.comp -", f"assign 0 1 {R.choice([good, bad])}",
+                 f"define 0 0 2 {fmt_tree(div)}"]
+        top = 0
+        if kind == "chain":
+            lines.append(f"define 1 0 3 {fmt_tree(('read', 0, 0, [('readc', 0, [('ret', 0), ('ret', 1), ('ret', 2), ('ret', 3)])] * 2))}")
+            top = R.choice([0, 1, 1])
+        lines += [f"read {top}", f"assign 0 1 {bad}", f"read {top}"]
+        for _ in range(R.randrange(1, 4)):
+            lines.append(R.choice([f"read {top}", f"assign 0 0 {gen_val(R)}", f"assign 0 1 {bad}", "read 0"]))
+        lines += [f"read {top}", f"assign 0 1 {R.choice([good, other])}", f"read {top}", f"assign 0 1 {bad}", f"read {top}",
+                  f"read {top}"]
+        return core.Scenario(lines, {"mode": "raise"})
+    # x = 0.0 and c4 = 0.2 (function of d = 0.1) on owner 0, flag = 1.0 on owner 1; c = (x; flag; c4 if flag)
+    c = ("read", 0, 0, [("read", 1, 0, [("ret", 7), ("readc", 0, [("ret", 0), ("ret", 1), ("ret", 2), ("ret", 3)])])] * 2)
+    lines = ["scenario comp 0.0.obs,0.1.obs,0.2.comp,0.3.comp,1.0.obs -", f"assign 0 1 {good}", "assign 1 0 1",
+             f"define 0 0 2 {fmt_tree(div)}", f"define 1 0 3 {fmt_tree(c)}", "read 1"]
+    tail = ["assign 1 0 0", f"assign 0 1 {bad}"]
+    R.shuffle(tail)
+    lines += tail + ["read 1", "read 1"]
+    for _ in range(R.randrange(0, 4)):
+        lines.append(R.choice(["read 1", "read 0", f"assign 1 0 {R.choice([0, 1])}", f"assign 0 1 {R.choice([good, bad])}",
+                               f"assign 0 0 {gen_val(R)}"]))
+    lines += ["read 1", "read 0"]
+    return core.Scenario(lines, {"mode": "raise"})
 
 
 def gen_cycle_scenario(R):
@@ -325,11 +388,15 @@ def gen_cycle_scenario(R):
 
 
 def gen_comp_scenario(R, mode=None, n_ops=None):
-    """mode: 'pure' (quantifier of C17), 'write' (functions that assign: cycle detection),
-    'hread' (user handlers that read Computables while notified: G7 territory)"""
-    if mode is None and n_ops is None and R.random() < 0.04:
-        return gen_cycle_scenario(R)
-    mode = mode or R.choice(["pure"] * 8 + ["write", "hread"])
+    """mode: 'pure' (quantifier of C17), 'raise' (pure functions some branches of which raise), 'write' (functions that
+    assign: cycle detection), 'hread' (user handlers that read Computables while notified: G7 territory)"""
+    if mode is None and n_ops is None:
+        k = R.random()
+        if k < 0.04:
+            return gen_cycle_scenario(R)
+        if k < 0.08:
+            return gen_raise_scenario(R)
+    mode = mode or R.choice(["pure"] * 8 + ["raise"] * 2 + ["write", "hread"])
     n_owner = 1 if mode == "hread" else R.choice([1, 2, 2])
     n_obs = R.randrange(2, 5)
     n_comp = R.randrange(1, 4)
@@ -360,7 +427,8 @@ def gen_comp_scenario(R, mode=None, n_ops=None):
     def define():
         c = pending.pop(0)
         o, n = comp_keys[c]
-        t = gen_tree(R, R.choice([1, 2, 2, 3]), obs_keys, list(defined), mode == "write", root=(mode == "hread" or R.random() < 0.9))
+        t = gen_tree(R, R.choice([1, 2, 2, 3]), obs_keys, list(defined), mode == "write", root=(mode == "hread" or R.random() < 0.9),
+                     p_fail=0.3 if mode == "raise" else 0.0)
         lines.append(f"define {c} {o} {n} {fmt_tree(t)}")
         defined.append(c)
 
@@ -399,14 +467,6 @@ def gen_comp_scenario(R, mode=None, n_ops=None):
     while pending and R.random() < 0.7:
         define()
         lines.append(f"read {defined[-1]}")
-    if mode in ("write", "hread"):
-        # an evaluation that raised leaves the Computed half-built (it returns None from then on): the scenario ends
-        # with the rejected call
-        impl = CompImpl(lines[0])
-        for i, l in enumerate(lines[1:], 1):
-            if impl.line(l.split()).startswith("err"):
-                lines = lines[: i + 1]
-                break
     return core.Scenario(lines, {})
 
 
@@ -449,19 +509,23 @@ def exhaustive_chunk(args):
 
 
 def spec_eval(comps, store, c, depth=0):
-    """what the function of Computed c returns for the given Observable values (pure trees only)"""
+    """what the function of Computed c returns for the given Observable values (pure trees only): a value, "raise" (it
+    arrives at a `fail`, possibly in the function of a Computable it reads), or "exc" (not covered: assignments,
+    undefined Computables)"""
     if c not in comps or depth > 50:
         return "exc"
     t = comps[c][2]
     while True:
         if t[0] == "ret":
             return t[1]
+        if t[0] == "fail":
+            return "raise"
         if t[0] == "read":
             t = pick(t[3], store[f"{t[1]}.{t[2]}"])
         elif t[0] == "readc":
             v = spec_eval(comps, store, t[1], depth + 1)
-            if v == "exc":
-                return "exc"
+            if v in ("exc", "raise"):
+                return v
             t = pick(t[2], v)
         else:
             return "exc"
@@ -480,6 +544,13 @@ def oracle_comp(sc, obs):
         k = ev[0]
         if k == "hread":
             hread_seen = True
+            if not writes and len(ev) > 4:
+                # G7 repaired: a handler notified by an Observable reads what the function gives for the values as they
+                # are now (the new value is stored, every dependent is dirty before the handler runs)
+                want = spec_eval(comps, ev[4], ev[2])
+                if want not in ("raise", "exc") and want != ev[3]:
+                    bad.append(f"stale-in-handler: handler {ev[1]} read Computable {ev[2]} = {ev[3]} while notified, "
+                               f"its function evaluated then gives {want}")
         if k == "op":
             w = ev[1].split()
             if w[0] == "define":
@@ -522,11 +593,17 @@ def oracle_comp(sc, obs):
                 record = []
         elif k == "done":
             head, store = ev[1], ev[2]
-            if cur_op[0] in ("read", "define") and head.startswith("ok") and not writes:
+            if cur_op[0] in ("read", "define") and not writes:
                 c = int(cur_op[1])
                 want = spec_eval(comps, store, c)
-                if want != "exc" and str(want) != head.split()[1]:
-                    bad.append(f"stale{'-after-handler-read' if hread_seen else ''}: `{' '.join(cur_op)}` returned {head.split()[1]}, its function evaluated now gives {want}")
+                sfx = "-after-handler-read" if hread_seen else ""
+                if head.startswith("ok"):
+                    if want == "raise":
+                        bad.append(f"stale{sfx}: `{' '.join(cur_op)}` returned {head.split()[1]}, its function evaluated now raises")
+                    elif want != "exc" and str(want) != head.split()[1]:
+                        bad.append(f"stale{sfx}: `{' '.join(cur_op)}` returned {head.split()[1]}, its function evaluated now gives {want}")
+                elif head == "err Zero" and want not in ("raise", "exc"):
+                    bad.append(f"raised-needlessly{sfx}: `{' '.join(cur_op)}` raised although its function evaluated now returns {want}")
     return bad
 
 
